@@ -17,7 +17,8 @@
     hist <oid>                        → [tid,…]                  newest first (own history + base)
     revs <oid>                        → [tid:base:resolved,…]
     lock                              → <t> | free
-    undo <oid> <ctid> <undone> <pre> <cur>  → ok <rec> [calls] | err:Undo [calls]   (undoResolve)
+    undo <tid> <oid> <ctid> <undone> <pre> <cur>  → ok <rec> [calls] | err:Undo [calls]
+                                      (a whole undo transaction of one object through undoResolve)
   state grammar:  a<n>.  |  p<state><state>  |  r<fmt><fields>.
     fmt/fields: c<oid>,<K>  o<oid>  m<db>,<oid>,<K>  n<db>,<oid>  w<oid>  x<oid>,<db>  l<oid>
     K (pickled class slot): g<cid> (global) | t<cid> (module,name tuple)
@@ -303,16 +304,24 @@ def srStep (d : DState) (toks : List String) : DState × String :=
     | some oid => (d, "[" ++ joinWith "," (histLine (d.sys.hist ++ d.sys.base) oid) ++ "]")
     | none => (d, "bad-op")
   | ["lock"] => (d, match d.sys.lock with | some t => toString t | none => "free")
-  | ["undo", oid, ctid, undone, pre, cur] =>
-    match oid.toNat?, ctid.toNat?, undone.toNat?, parseRec pre, parseRec cur with
-    | some oid, some ctid, some undone, some pre, some cur =>
-      let r := undoResolve (envOf d.classes) (loadSerialK d.sys.kind d.sys.hist d.sys.base)
-                 d.sys.cache oid ctid undone pre cur
-      ({ d with sys := { d.sys with cache := r.cache } },
-       match r.out with
-       | .ok rec => "ok " ++ recStr rec ++ callsStr r.call.toList
-       | .error _ => "err:Undo" ++ callsStr r.call.toList)
-    | _, _, _, _, _ => (d, "bad-op")
+  | ["undo", tid, oid, ctid, undone, pre, cur] =>
+    -- one whole undo transaction for a single object whose undo needs resolution:
+    -- tpc_begin(tid); undo → _transactionalUndoRecord → undoResolve; tpc_vote; tpc_finish | tpc_abort
+    match tid.toNat?, oid.toNat?, ctid.toNat?, undone.toNat?, parseRec pre, parseRec cur with
+    | some tid, some oid, some ctid, some undone, some pre, some cur =>
+      if d.sys.lock.isSome then (d, "blocked")
+      else
+        let r := undoResolve (envOf d.classes) (loadSerialK d.sys.kind d.sys.hist d.sys.base)
+                   d.sys.cache oid ctid undone pre cur
+        match r.out with
+        | .ok rec =>
+          let t : Txn := { tid := tid, recs := [{ oid := oid, base := ctid, data := rec, wanted := pre,
+                                                   resolved := true }], checked := [] }
+          ({ d with sys := { d.sys with cache := r.cache, hist := t :: d.sys.hist } },
+           "ok " ++ recStr rec ++ callsStr r.call.toList)
+        | .error _ =>
+          ({ d with sys := { d.sys with cache := r.cache } }, "err:Undo" ++ callsStr r.call.toList)
+    | _, _, _, _, _, _ => (d, "bad-op")
   | _ => (d, "bad-op")
 
 def main : IO Unit := driverLoop srStep ({ sys := init (.simple .file) [], classes := [] } : DState)
